@@ -12,6 +12,12 @@ From MZ.lib Require Import Arr Mach.
 From MZ.model Require Import InflateCore Boundary.
 Local Open Scope N_scope.
 
+From Coq Require Import ZArith List Bool.
+From MZ.lib Require Import Arr.
+From MZ.spec Require Adler Zlib.
+From MZ.proofs Require StoredSpec InflateStoredZ InflateStoredChunks InflateStoredGen InflateStoredBoundary.
+Import ListNotations.
+
 Theorem C19_boundary_record_roundtrip :
   forall r, d_state r = ReadBlockHeader -> d_num_bits r < 8 -> d_bit_buf r < 256 ->
   exists b, block_boundary_state r = Ret (Some b) /\
@@ -31,3 +37,45 @@ Qed.
 Theorem C19_no_record_elsewhere :
   forall r, d_state r <> ReadBlockHeader -> block_boundary_state r = Ret None.
 Proof. intros r H. unfold block_boundary_state. destruct (d_state r); try reflexivity. congruence. Qed.
+
+(* The semantic half for streams of stored blocks: a decoder standing at a block boundary between two calls -
+   any decoder satisfying the call-to-call invariant DI of proofs/InflateStoredGen.v, which holds of the fresh
+   decoder (DI_init) and is re-established by every call (call_gen) - has a boundary record, and the decoder
+   rebuilt from that record alone satisfies the same invariant: whatever schedule continues from it (any
+   slices, any output buffers, positions and budgets) returns, extends the bytes delivered so far to a longer
+   prefix of the plaintext and ends, if it ends, with the whole plaintext and the uninterrupted decoder's
+   final status. *)
+Theorem C19_rebuilt_decoder_continues_stored_streams_partial :
+  forall flags zl cmf flg A B extra d D (sched : list (list N * arr * N * N)) later,
+  has flags F_ZLIB = zl -> has flags F_STOPBB = false -> has flags F_MORE = true ->
+  (cmf < 256)%N -> (flg < 256)%N -> Zlib.valid_header (Z.of_N cmf) (Z.of_N flg) = true -> (A < 2 ^ 32)%N ->
+  InflateStoredZ.shapeB B ->
+  let offered := concat (map (fun it : list N * arr * N * N => fst (fst (fst it))) sched) in
+  InflateStoredGen.DI flags zl cmf flg A B extra d (offered ++ later) D -> d_state d = ReadBlockHeader ->
+  Forall (InflateStoredGen.item_ok flags zl cmf flg) sched -> (N.of_nat (length offered) < 2 ^ 57)%N ->
+  offered ++ later <> [] ->
+  exists b s total acc,
+    block_boundary_state d = Ret (Some b) /\
+    InflateStoredGen.feed3 flags (from_block_boundary_state b) [] sched 0 NeedsMoreInput D = Ret (s, total, acc) /\
+    acc = firstn (length acc) (InflateStoredChunks.P B) /\
+    (s = HasMoreOutput \/ (s = NeedsMoreInput /\ later <> []) \/
+     (s = InflateStoredChunks.final_status flags zl A B /\ acc = InflateStoredChunks.P B)).
+Proof. exact InflateStoredBoundary.rebuilt_decoder_continues. Qed.
+
+(* non-vacuity: decode the first of two stored blocks, take the record at the boundary, rebuild, finish *)
+Example C19_rebuild_at_a_stored_block_boundary :
+  let stream := StoredSpec.stored_stream [[97; 98; 99]%N] [100; 101]%N in
+  match decompress dec_default (firstn 8 stream) (amake 8 0) 0 Mach.USIZE_MAX 6 with
+  | Ret r1 =>
+      match block_boundary_state (cr_dec r1) with
+      | Ret (Some b) =>
+          match decompress (from_block_boundary_state b) (skipn 8 stream) (cr_buf r1) 3 Mach.USIZE_MAX 6 with
+          | Ret r2 => cr_status r1 = NeedsMoreInput /\ cr_status r2 = Done /\
+                      aget_list (cr_buf r2) 0 5 = [97; 98; 99; 100; 101]%N
+          | _ => False
+          end
+      | _ => False
+      end
+  | _ => False
+  end.
+Proof. vm_compute. repeat split; reflexivity. Qed.
